@@ -87,11 +87,19 @@ def lex_ok(typ, s):
     return None
 
 
+def _finite(s):
+    try:
+        return math.isfinite(float(s))
+    except ValueError:
+        return False
+
+
 def lex_must(typ, s):
-    """must a value of this type be accepted as far as its lexical form goes?"""
+    """must a value of this type be accepted as far as its lexical form goes?  (a literal such as 1e999, which denotes
+    no finite double, may be refused: INF is outside the documented format)"""
+    if typ in ("double", "angle") and RX_FLOAT.fullmatch(s):
+        return _finite(s) and abs(float(s)) <= 1e300         # pi * 1e308 is not a finite double any more
     if typ == "angle":
-        if RX_FLOAT.fullmatch(s):
-            return True
         m = RX_DMS_MUST.fullmatch(s)
         return bool(m) and int(m.group(3)) < 60 and float(m.group(4)) < 60.0 and len(m.group(2)) < 9
     return bool(lex_ok(typ, s))
@@ -307,7 +315,7 @@ class Findings:
 def san_key(rr):
     """key/what of a sanitizer report or abnormal termination, the same format ck.sanitizer() uses"""
     if rr.san:
-        return rr.san["key"], "sanitizer report " + rr.san["kind"]
+        return rr.san["key"].replace(":-nan is outside", ":nan is outside"), "sanitizer report " + rr.san["kind"]
     if rr.timeout:
         return None, None
     if rr.signaled or rr.rc in (134, 139):
@@ -529,6 +537,8 @@ class Drv:
             self.ck.inconc("watchdog overrun in a batch not reproduced alone")
         else:
             self.ck.inconc("driver death in a batch not reproduced alone")
+        self.ck.sample(dict(not_reproduced_alone=label, kind=rec.kind, mode=rec.mode, meta=rec.meta, rc=rr.rc, bytes=len(rec.doc),
+                            doc_b64=b64(rec.doc[:4000]), stderr=(rr.err or "")[:1200]), limit=10)
         if res1 is not None:
             results[rec.id] = res1
         else:
@@ -1517,8 +1527,6 @@ def w1_valid(X):
 def w2_sequences(X):
     """bounded-exhaustive tag-event sequences against the XSD content model"""
     ck, F = X.ck, X.F
-    depth = X.n(4, 5)
-    seqs = all_sequences(3)
     recs, info = [], {}
 
     def add(ev, truncated):
@@ -1558,10 +1566,6 @@ def w2_sequences(X):
             else:
                 cls = ("w2", "valid", c)
                 if o.kind == "refused":
-                    par = "?"
-                    st = []
-                    for e in ev[:max(0, o.line)]:
-                        st.pop() if e == CLOSE else st.append(e)
                     tag = ev[o.line - 1] if 1 <= o.line <= len(ev) else "closing"
                     F.add("reject-valid:sequence:%s" % (tag if tag != CLOSE else "close"),
                           "a tag sequence valid by the XSD (minimal valid attributes) is refused on line %d: [%s]" % (o.line, o.msg),
@@ -1569,8 +1573,9 @@ def w2_sequences(X):
             ck.cls(cls)
         return ok_prefixes
 
-    # exhaustive part
-    exhaustive = 4 if X.tier == "quick" else 4
+    # exhaustive part (length 5 unpruned would be 4.1 million documents; beyond 4 only prefixes that are still error-free
+    # are extended, which loses nothing: once the parser is in its error state every continuation is refused)
+    exhaustive = 4
     seqs = all_sequences(exhaustive)
     for k, ev in enumerate(seqs):
         add(ev, False)
@@ -2155,9 +2160,11 @@ def judge_artifact(X, kind, data, label):
                     "--export", "@export", "--algorithm", ("envelope", "gso", "svd", "cholesky")[len(data) % 4]]
             if len(data) & 4:
                 args += ["--angular", "360"]
-            for a in (args, ["@@"]):
+            for a in (["@@"], args):
                 g = X.gl.run(data, a)
                 c2 = judge_gl(ck, F, X.gl, data, g, label)
+                if c2 in ("crash", "hang"):
+                    break
                 if c2 == "adjusted" and L.wf:
                     for cat, ln in L.categories():
                         F.add("silent-accept:%s" % cat, "line %d violates the documented grammar (%s); accepted and adjusted" % (ln, cat),
@@ -2435,4 +2442,10 @@ def replay(path):
     ck.cls(("replay", "x"))
     X.F.flush()
     ck.minimum = dict(evaluations=1, distinct=1)
-    return ck.finish()
+    evp = os.path.join(getattr(ck, "out_root", runner.ROOT), "evidence", "C11.json")
+    keep = open(evp).read() if os.path.exists(evp) else None
+    rc = ck.finish()
+    if keep is not None:
+        with open(evp, "w") as f:
+            f.write(keep)
+    return rc
